@@ -98,6 +98,16 @@ class MemoSurface(core.Surface):
             return True
         if i[0] == "EXC" and m[0] == "EXC":
             return True
+        if i[0] == "OK" and m[0] == "OK":
+            # the VALUES are the property; which of them the resolver keeps in its cache is internal state: a different (still
+            # correct) caching policy is a harmless rewrite, so a cache that differs from Memo.mall's is a remark in the evidence,
+            # not a violation (audit finding D2: a resolver caching only top-level values raised 6 false VIOLATION lines)
+            same_values = core.strict_key(i[1]["values"]) == core.strict_key(m[1]["values"])
+            if same_values and core.strict_key(i[1]["cache"]) != core.strict_key(m[1]["cache"]):
+                core.note(ID, "the cache _ConditionResolver leaves behind differs from the one of Memo.mall although every condition value "
+                              "agrees: the code's caching policy is no longer the modelled one (C02_memo_resolver_correct then speaks of "
+                              "the model only; the values remain compared)")
+            return same_values
         return super().agree(x, i, m)
 
     def tags(self, x):
